@@ -3,7 +3,15 @@
    Proofs/ParserNoFuel.v and Proofs/ParserShift.v. *)
 From SQLair.Base Require Import Bytes.
 From SQLair.Model Require Import Parser.
-From SQLair.Proofs Require Import ParserPos ParserNoFuel ParserShift.
+From SQLair.Proofs Require Import ParserPos ParserNoFuel ParserPositioned ParserShift.
+
+(* Every parse error names a position: no error comes out of [parse] without a
+   line and a column (true since fix F15; before it the error for an asterisk
+   input among INSERT literals had none).  For every byte string. *)
+Theorem C19_every_error_positioned :
+  forall (inp : str) (e : perr), parse inp = Err e -> positioned e = true.
+Proof. exact parse_error_positioned. Qed.
+Print Assumptions C19_every_error_positioned.
 
 (* In range: the line of a positioned error is a line of the query
    (lines as in strings.Split(query, "\n")) and its column is a column of that
@@ -15,6 +23,33 @@ Theorem C19_in_range :
     ecol e <= length (nth (eline e - 1) (lines_of inp) []) + 1.
 Proof. exact parse_error_in_range. Qed.
 Print Assumptions C19_in_range.
+
+(* ... so, without the side condition: every error of every rejected query. *)
+Theorem C19_every_error_in_range :
+  forall (inp : str) (e : perr),
+    parse inp = Err e ->
+    1 <= ecol e /\ 1 <= eline e /\ eline e <= nlines inp /\
+    ecol e <= length (nth (eline e - 1) (lines_of inp) []) + 1.
+Proof.
+  intros inp e H. exact (parse_error_in_range inp e H (parse_error_positioned inp e H)).
+Qed.
+Print Assumptions C19_every_error_in_range.
+
+(* ... and the shifted error is the same error k lines further down (every
+   error is positioned, so [shift_err] always moves the line). *)
+Theorem C19_shift_every_error :
+  forall (inp : str) (k : nat) (e : perr),
+    parse inp = Err e ->
+    parse (repeat 10%N k ++ inp) =
+      Err {| eline := eline e + k; ecol := ecol e; ekind_of := ekind_of e;
+             epayload := epayload e; positioned := true |}.
+Proof.
+  intros inp k e H. rewrite (parse_shift_err inp k e H).
+  pose proof (parse_error_positioned inp e H) as P.
+  destruct e as [l c kd pl ps]. cbn in P. subst ps.
+  destruct (shift_err_spec k l c kd pl) as [E _]. rewrite E. reflexivity.
+Qed.
+Print Assumptions C19_shift_every_error.
 
 (* Translation invariance, errors: k newlines in front of a rejected query
    move the reported line k lines down; kind, payload and column are the same
